@@ -54,7 +54,13 @@ def run(mod, fname, args, summaries=None, cpu='initialised', trace=False, maxpat
             pre(e)
         return fname, vals
     res = ex.explore(setup, maxpaths)
+    ex.last_setup = setup
     return res, ex
+
+
+def rerun(ex, r):
+    """re-execute the path of PathResult r (same decisions) - used after construction-time aliases were installed"""
+    return ex.run_single(ex.last_setup, r.decisions)
 
 
 def arg_hex(args, model, ufs=None):
